@@ -16,6 +16,9 @@ fn main() {
     let scenario = args.pos.first().cloned().unwrap_or_default();
     let shard = Shard::from_args(args);
     simnet::install_panic_hook();
+    if !shard.out.is_empty() && shard.out != "-" {
+        simnet::hang::install(&scenario.to_uppercase(), &shard.out);
+    }
     let rep = match scenario.as_str() {
         "c28" => c28::run(&shard),
         "c35" => c35::run(&shard),
